@@ -46,9 +46,10 @@ class Curve:
     def double(self, P):
         return self.add(P, P)
 
-    def mul(self, P, n):
+    def mul_affine(self, P, n):
+        """the n-fold sum by the affine law only (the specification of mul)"""
         if n < 0:
-            return self.mul(self.neg(P), -n)
+            return self.mul_affine(self.neg(P), -n)
         R = None
         Q = P
         while n:
@@ -58,6 +59,73 @@ class Curve:
             if n:
                 Q = self.add(Q, Q)
         return R
+
+    def mul(self, P, n):
+        """n-fold sum.  Small fields: the affine law itself.  Large fields (one affine step costs
+        a ~0.4 ms modular inversion): an inversion-free Jacobian ladder, which selfcheck()
+        validates against mul_affine exhaustively on small curves and on seeded scalars at
+        full size - the affine law stays the definition."""
+        if self.F.p < (1 << 64):
+            return self.mul_affine(P, n)
+        return self.mul_jacobian(P, n)
+
+    # -- Jacobian coordinates (X, Y, Z) ~ (X/Z^2, Y/Z^3); None = infinity
+    def _jdbl(self, T):
+        F = self.F
+        if T is None:
+            return None
+        X, Y, Z = T
+        if F.is_zero(Y):
+            return None
+        Y2 = F.mul(Y, Y)
+        S = F.smul(F.mul(X, Y2), 4)
+        M = F.smul(F.mul(X, X), 3)
+        if not F.is_zero(self.a):
+            Z2 = F.mul(Z, Z)
+            M = F.add(M, F.mul(self.a, F.mul(Z2, Z2)))
+        X3 = F.sub(F.mul(M, M), F.smul(S, 2))
+        Y3 = F.sub(F.mul(M, F.sub(S, X3)), F.smul(F.mul(Y2, Y2), 8))
+        return (X3, Y3, F.smul(F.mul(Y, Z), 2))
+
+    def _jadd_affine(self, T, Q):
+        """T (Jacobian) + Q (affine, not infinity)"""
+        F = self.F
+        if T is None:
+            return (Q[0], Q[1], F.one)
+        X1, Y1, Z1 = T
+        Z1Z1 = F.mul(Z1, Z1)
+        U2 = F.mul(Q[0], Z1Z1)
+        S2 = F.mul(Q[1], F.mul(Z1, Z1Z1))
+        if U2 == X1:
+            if S2 != Y1:
+                return None
+            return self._jdbl(T)
+        H = F.sub(U2, X1)
+        Rr = F.sub(S2, Y1)
+        H2 = F.mul(H, H)
+        H3 = F.mul(H, H2)
+        V = F.mul(X1, H2)
+        X3 = F.sub(F.sub(F.mul(Rr, Rr), H3), F.smul(V, 2))
+        Y3 = F.sub(F.mul(Rr, F.sub(V, X3)), F.mul(Y1, H3))
+        return (X3, Y3, F.mul(Z1, H))
+
+    def mul_jacobian(self, P, n):
+        if n < 0:
+            return self.mul_jacobian(self.neg(P), -n)
+        if P is None or n == 0:
+            return None
+        F = self.F
+        P = (F.el(P[0]), F.el(P[1]))
+        T = None
+        for bit in bin(n)[2:]:
+            T = self._jdbl(T)
+            if bit == "1":
+                T = self._jadd_affine(T, P)
+        if T is None:
+            return None
+        iz = F.inv(T[2])
+        iz2 = F.mul(iz, iz)
+        return (F.mul(T[0], iz2), F.mul(T[1], F.mul(iz2, iz)))
 
     def points(self):
         """All affine points (brute force; tiny fields only), infinity not included."""
@@ -103,10 +171,36 @@ def selfcheck():
         for P in pts:
             assert E.on_curve(P)
             assert E.mul(P, n) is None
+            for k in range(-3, 2 * n + 3):
+                assert E.mul_jacobian(P, k) == E.mul_affine(P, k), (b, P, k)
             assert E.add(P, E.neg(P)) is None
             for Q in pts:
                 S = E.add(P, Q)
                 assert E.on_curve(S) and S == E.add(Q, P)
                 for T in pts:
                     assert E.add(S, T) == E.add(P, E.add(Q, T))
+    # the Jacobian ladder against the affine law: curves with a != 0, and full size (seeded
+    # scalars on both pairing curves incl. a non-subgroup point, and secp256k1)
+    import random
+
+    from . import params
+
+    g = random.Random(99)
+    for F, a, b in ((Fp(13), 2, 3), (Fp(17), 5, 1), (Fpk(5, (2, 0)), (1, 2), (0, 1))):
+        E = Curve(F, a, b)
+        pts = [None] + E.points()
+        for P in pts:
+            for k in range(0, 2 * len(pts) + 2):
+                assert E.mul_jacobian(P, k) == E.mul_affine(P, k)
+    d = params.curves()
+    cases = [(d["bls12_381"]["E1"], d["bls12_381"]["G1"]), (d["bls12_381"]["E2"], d["bls12_381"]["G2"]),
+             (d["bn128"]["E1"], d["bn128"]["G1"]), (d["bn128"]["E2"], d["bn128"]["G2"]),
+             (Curve(Fp(params.SECP_P), 0, 7), (params.SECP_GX, params.SECP_GY))]
+    for E, G in cases:
+        for k in (1, 2, 3, g.getrandbits(64), g.getrandbits(255), g.getrandbits(400)):
+            assert E.mul_jacobian(G, k) == E.mul_affine(G, k)
+    E = d["bls12_381"]["E1"]
+    Q = E.lift_x(0)[0]  # order 3, outside the subgroup
+    for k in range(0, 8):
+        assert E.mul_jacobian(Q, k) == E.mul_affine(Q, k)
     return True
